@@ -99,6 +99,9 @@ class World:
         self.other = self.core.Model()
         self.other.systems.add_system(self.Scripted.Idle('s0', self.other))
         self.log = []          # (timestep, uid)
+        # what the LIBRARY is told the systems are called: for some worlds identifiers that look like shell patterns / templates, and
+        # one that is not unicode-normalised (the harness keeps its own names s0, s1, ... for the log and the scripts)
+        self.lib_ids = {'s1': 's*', 's2': 's?', 's3': 's[0-9]', 's0': 'se\u0301'} if flavour % 3 == 2 else {}
         self.script = {}
         self.faults = {}
         self.ref = []          # dicts id(uid), sid, prio, seq  (registered now)
@@ -135,7 +138,9 @@ class World:
         idrep = [str, self.reps.Label, str, self.reps.ShoutLabel][(hash_of(sid) + 3 * self.flavour) % 4]
         if idrep is not str:
             self.ctx.count('str_subclass_ids')
-        o = cls(idrep(sid), self.model, self, priority=prio, uid=uid)
+        o = cls(idrep(self.lib_ids.get(sid, sid)), self.model, self, priority=prio, uid=uid)
+        if sid in self.lib_ids:
+            self.ctx.count('pattern_like_or_unnormalised_ids')
         self.objs[uid] = o
         self.model.systems.add_system(o)
         return self._entry(uid, sid, prio)
@@ -170,7 +175,7 @@ class World:
                     self.objs[cur[0]['id']].clean_up()          # a supervisor asks the system to remove itself
                     self.ctx.count('removed_via_clean_up')
                 else:
-                    self.model.systems.remove_system(target)
+                    self.model.systems.remove_system(self.lib_ids.get(target, target))
                 self.ref = [r for r in self.ref if r['sid'] != target]
                 rec('removed', cur[0]['id'])
                 if kind == 'replace':   # a DIFFERENT object under the same id, registered in the same timestep
